@@ -28,6 +28,7 @@ ASSUMPTIONS = [
     "subclasses: the contract is the parent's fields that are not redeclared plus the class's own declarations, under the class's options; the parent is declared "
     "with the same case_insensitive choice (letter-case handling of a field is fixed where the field is declared)",
     "fail-fast order is unspecified: the raised error must be ONE of the failures the model finds",
+    "silent (counted): an unknown key that names a method / ClassVar of the class (the library never carries it as an addition, whatever the policy; undocumented)",
 ]
 SHARDS = {"quick": 4, "thorough": 16}
 
@@ -225,9 +226,14 @@ def model(d, pairs):
     # addition
     addition = o.get("addition")
     extra = {}
+    members = {x["name"] for x in (d.get("extras") or []) + ((d.get("parent") or {}).get("extras") or [])}
     for k, v in data:
         if k in taken:
             continue
+        if k in members:
+            # a key that names a method / ClassVar of the class: the library never carries it as an addition ("excluded vars cannot
+            # be carry in addition even if allowed" - BaseParser.parse_addition), the documents say nothing: not judged
+            return {"verdict": None, "unspecified": "unknown-key-names-a-non-field-member"}
         val = codec.decode(v)
         if addition is False:
             failures.add(("ExceedError", k))
